@@ -1212,6 +1212,10 @@ func (vm *VM) run() (Addr, bool) {
 		case OpPrint:
 			rv := vm.general(a)
 			if rv.IsValid() {
+				// Print the underlying value of a value with a Scriggo type.
+				if t, ok := vm.env.typeof(rv).(ScriggoType); ok {
+					rv, _ = t.Unwrap(rv)
+				}
 				vm.env.doPrint(rv.Interface())
 			} else {
 				vm.env.doPrint(nil)
